@@ -28,7 +28,7 @@ EXC = ["/src/Exception/ContractViolation.cxx", "/src/Exception/TFELException.cxx
 # units that go to Lean with one shared let-chain (heavy cones shared by all outputs)
 SHARED = ["MTT_f0", "MicroMT_f0_n2", "MicroSC_f0_n2"]
 # units evaluated exactly only (pivoted LU inside): never sent to Lean
-XONLY_PREFIX = ("Reuss3_", "MTT_sph", "MicroMT_n", "MicroSC_1pass")
+XONLY_PREFIX = ("Reuss3_", "MTT_sph", "MicroMT_n", "MicroSC_1pass", "MicroDilute_n")
 
 
 # ------------------------------------------------------------------ closed-form references (over Q)
@@ -195,8 +195,8 @@ def gen_unit(name, rng):
         Ci = iso6(3 * Ki, 2 * Gi)
         if name == "DiluteT_gen":
             P = matmul([a - b for a, b in zip(Ci, C0)], A)
-            return env, [a + f * b for a, b in zip(C0, P)] + C0
-        return env, C0 + C0
+            return env, [a + f * b for a, b in zip(C0, P)]
+        return env, C0
     if name in ("SphDilute_KG", "SphMT_KG"):
         K0, G0, Ki, Gi = rmod(rng), rmod(rng), rmod(rng), rmod(rng)
         f = rng.choice([F(0), F(1), F(rng.randint(0, 16), 16), F(rng.randint(0, 9), 9)])
@@ -216,6 +216,10 @@ def gen_unit(name, rng):
         if name == "SphHill":
             return {"E": E, "nu": nu}, iso6(al / (3 * K0), be / (2 * G0))
         return {"E": E, "nu": nu}, [F(0)] * 36
+    if name in ("IsoStiff_EN", "IsoStiff_KG"):
+        K0, G0 = rmod(rng), rmod(rng)
+        E, nu = en_of(K0, G0)
+        return ({"E0": E, "nu0": nu} if name == "IsoStiff_EN" else {"K0": K0, "G0": G0}), iso6(3 * K0, 2 * G0)
     if name in ("SphLoc", "SphLoc_def"):
         K0, G0, Ki, Gi = rmod(rng), rmod(rng), rmod(rng), rmod(rng)
         E0, nu0 = en_of(K0, G0)
@@ -264,8 +268,7 @@ def gen_unit(name, rng):
     if name in ("MicroMT_f0_n2", "MicroSC_f0_n2"):
         K, G = gen_moduli(rng, 2)
         env = {"K0": K[0], "K1": K[1], "G0": G[0], "G1": G[1]}
-        C0 = iso6(3 * K[0], 2 * G[0])
-        return env, C0 + C0
+        return env, iso6(3 * K[0], 2 * G[0])
     return None
 
 
